@@ -1,4 +1,4 @@
-"""C01 -- rename preserves the program (structural clauses R01.1-R01.10)."""
+"""C01 -- rename preserves the program (structural clauses R01.1-R01.11)."""
 from __future__ import annotations
 
 import ast
@@ -103,6 +103,45 @@ def check(ctx, res) -> None:
     from .c02 import _same_pyname_strength_rule
 
     _same_pyname_strength_rule(ctx, res, "R01.10")
+    from .common import call_target_rule
+
+    call_target_rule(ctx, res, "R01.11")
+
+
+def call_keyword_rule(ctx, res, rule: str) -> None:
+    """R01.4 (shared with C20 as R20.11): a call keyword is never evaluated as a name of the calling scope, and a word that
+    only LOOKS like one (the last target of `a, b = 1, 2`) still is."""
+    idx = ctx.idx
+    # ---- R01.4 a call keyword is never evaluated as a name of the calling scope
+    g = idx.need_func("rope.base.evaluate.ScopeNameFinder.get_primary_and_pyname_at")
+    cfg = CFG(g.node)
+    kw_tests = [n for n in cfg.nodes if n.kind == "test" and isinstance(n.ast, ast.Call) and call_name(n.ast) == "is_function_keyword_parameter"]
+    generic = [n for n in cfg.nodes if n.kind == "stmt" and isinstance(n.ast, ast.Return) and isinstance(n.ast.value, ast.Call)
+               and call_name(n.ast.value).startswith("eval_str")]
+    if not kw_tests or not generic:
+        raise AnalysisError("anchor=get_primary_and_pyname_at: keyword-parameter test or generic scope evaluation not found")
+    t = kw_tests[0]
+    tgt = [b for b, l in cfg.succ[t.id] if l == "true"]
+    LABS = {"", "true", "false", "return", "case", "nomatch"}
+    # `is_function_keyword_parameter` is a textual test (word preceded by ',' or '(' and followed by '='): it also holds for
+    # the targets of `a, b = 1, 2`.  So two things are necessary: (i) INSIDE call parentheses no path reaches the generic
+    # scope evaluation, (ii) OUTSIDE any call a path to the generic evaluation exists (the word is an ordinary name).
+    in_call_false = [(n.id, d, l) for n in cfg.nodes if n.kind == "test" and isinstance(n.ast, ast.Call) and call_name(n.ast) == "is_on_function_call_keyword"
+                     for d, l in cfg.succ[n.id] if l == "false"]
+    reach_all = cfg.reachable(tgt[0], labels=LABS) if tgt else set()
+    reach_in_call = cfg.reachable(tgt[0], labels=LABS, avoid_edges=in_call_false) if tgt else set()
+    leak = [n for n in generic if n.id in reach_in_call]
+    res.add(rule, "get_primary_and_pyname_at|call-keyword", not leak, g.where,
+            "inside call parentheses every exit of the keyword branch returns there: a keyword is never evaluated as a scope name" if not leak else
+            "when the offset is a call keyword (f(width=...)) a path falls through to the generic scope evaluation: the keyword resolves to a same-named "
+            "variable of the calling scope, so renaming that variable also rewrites the keyword and the callee receives a different keyword argument")
+    through = [n for n in generic if n.id in reach_all]
+    res.add(rule, "get_primary_and_pyname_at|non-call-falls-through", bool(through), g.where,
+            "a word that only looks like a keyword (a tuple target `a, b = 1, 2`) still reaches the generic scope evaluation" if through else
+            "every word that is preceded by ',' or '(' and followed by '=' is answered inside the keyword branch, although the test is textual and also "
+            "holds for the targets of `a, b = 1, 2` / `for a, b in ...`: such a target is no longer resolvable, rename from its definition is refused and "
+            "rename from a use rewrites only the uses (NameError)")
+
 
 
 def _check_main(ctx, res) -> None:
@@ -165,35 +204,7 @@ def _check_main(ctx, res) -> None:
     if n < 1:
         raise AnalysisError("anchor=rename._is_local has no truthy return")
 
-    # ---- R01.4 a call keyword is never evaluated as a name of the calling scope
-    g = idx.need_func("rope.base.evaluate.ScopeNameFinder.get_primary_and_pyname_at")
-    cfg = CFG(g.node)
-    kw_tests = [n for n in cfg.nodes if n.kind == "test" and isinstance(n.ast, ast.Call) and call_name(n.ast) == "is_function_keyword_parameter"]
-    generic = [n for n in cfg.nodes if n.kind == "stmt" and isinstance(n.ast, ast.Return) and isinstance(n.ast.value, ast.Call)
-               and call_name(n.ast.value).startswith("eval_str")]
-    if not kw_tests or not generic:
-        raise AnalysisError("anchor=get_primary_and_pyname_at: keyword-parameter test or generic scope evaluation not found")
-    t = kw_tests[0]
-    tgt = [b for b, l in cfg.succ[t.id] if l == "true"]
-    LABS = {"", "true", "false", "return", "case", "nomatch"}
-    # `is_function_keyword_parameter` is a textual test (word preceded by ',' or '(' and followed by '='): it also holds for
-    # the targets of `a, b = 1, 2`.  So two things are necessary: (i) INSIDE call parentheses no path reaches the generic
-    # scope evaluation, (ii) OUTSIDE any call a path to the generic evaluation exists (the word is an ordinary name).
-    in_call_false = [(n.id, d, l) for n in cfg.nodes if n.kind == "test" and isinstance(n.ast, ast.Call) and call_name(n.ast) == "is_on_function_call_keyword"
-                     for d, l in cfg.succ[n.id] if l == "false"]
-    reach_all = cfg.reachable(tgt[0], labels=LABS) if tgt else set()
-    reach_in_call = cfg.reachable(tgt[0], labels=LABS, avoid_edges=in_call_false) if tgt else set()
-    leak = [n for n in generic if n.id in reach_in_call]
-    res.add("R01.4", "get_primary_and_pyname_at|call-keyword", not leak, g.where,
-            "inside call parentheses every exit of the keyword branch returns there: a keyword is never evaluated as a scope name" if not leak else
-            "when the offset is a call keyword (f(width=...)) a path falls through to the generic scope evaluation: the keyword resolves to a same-named "
-            "variable of the calling scope, so renaming that variable also rewrites the keyword and the callee receives a different keyword argument")
-    through = [n for n in generic if n.id in reach_all]
-    res.add("R01.4", "get_primary_and_pyname_at|non-call-falls-through", bool(through), g.where,
-            "a word that only looks like a keyword (a tuple target `a, b = 1, 2`) still reaches the generic scope evaluation" if through else
-            "every word that is preceded by ',' or '(' and followed by '=' is answered inside the keyword branch, although the test is textual and also "
-            "holds for the targets of `a, b = 1, 2` / `for a, b in ...`: such a target is no longer resolvable, rename from its definition is refused and "
-            "rename from a use rewrites only the uses (NameError)")
+    call_keyword_rule(ctx, res, "R01.4")
 
     change_collector_rule(ctx, res, "R01.5")
 
